@@ -109,6 +109,7 @@ type FlowLine struct {
 }
 
 type flowTx struct {
+	auto    string // label: the trace is collected when the transaction is closed
 	lines   []FlowLine
 	pending []FlowStep
 	matched bool
@@ -121,6 +122,8 @@ type FlowRecorder struct {
 	txs   map[*corazawaf.Transaction]*flowTx
 	rules map[*corazawaf.Rule]*FlowRule
 	ctl   map[int64]string // ctlFn.action code -> option name, learnt from the real parser
+	// traces of transactions attached with AttachAuto, collected at their Close
+	finished []FlowTrace
 }
 
 var (
@@ -339,8 +342,19 @@ func GetFlowRecorder() *FlowRecorder {
 			if prevCall != nil {
 				prevCall(tx, name)
 			}
-			if rec := get(tx); rec != nil && name != "Close" {
+			rec := get(tx)
+			if rec == nil {
+				return
+			}
+			if name != "Close" {
 				add(rec, "call", name, 0, flowCallEv{Ev: "call", Name: name, St: flowState(tx)})
+				return
+			}
+			if rec.auto != "" {
+				fr.mu.Lock()
+				fr.finished = append(fr.finished, FlowTrace{Label: rec.auto, Lines: rec.lines})
+				delete(fr.txs, tx)
+				fr.mu.Unlock()
 			}
 		}
 	})
@@ -464,4 +478,27 @@ func ValidateFlowBatches(run *vf.Run, traces []FlowTrace, batchEvents int) (reje
 	}
 	validate(batch)
 	return
+}
+
+// AttachAuto starts recording a transaction whose end the caller does not see (it is created and closed
+// by a connector): the trace is collected when the transaction is closed.
+func (fr *FlowRecorder) AttachAuto(tx types.Transaction, label string) {
+	if !fr.Attach(tx) {
+		return
+	}
+	itx := tx.(*corazawaf.Transaction)
+	fr.mu.Lock()
+	if rec := fr.txs[itx]; rec != nil {
+		rec.auto = label
+	}
+	fr.mu.Unlock()
+}
+
+// TakeFinished returns (and forgets) the traces collected so far by AttachAuto.
+func (fr *FlowRecorder) TakeFinished() []FlowTrace {
+	fr.mu.Lock()
+	defer fr.mu.Unlock()
+	out := fr.finished
+	fr.finished = nil
+	return out
 }
